@@ -102,6 +102,20 @@ pub fn one_net(b: u64, spec: &NetSpec, lookups: bool) -> Value {
                 "missed_ids_listed": shadowed(&tr, &sv, net.sim.nodes[n].addr)}));
         }
 
+        // the same for an info_hash that HAS peers: the first node announces itself, then every node looks the info_hash up - an
+        // answer that carries values also carries closer nodes, and the lookup goes on through them
+        let swarm = rng.id();
+        let announcer = all[0];
+        let mut put = net.sim.call_put(announcer, dht::verif::PutRequestSpecific::AnnouncePeer(dht::verif::AnnouncePeerRequestArguments { info_hash: dht::Id::from(swarm), port: 5151, implied_port: None }), None, "ann");
+        net.sim.poke(announcer);
+        net.sim.run_calls(&mut [&mut put], 60_000);
+        for &n in &all {
+            let (call, log0) = do_lookup(&mut net, n, GetKind::Peers, swarm, "swarm");
+            let tr = lookup_trace(&net.sim, n, &swarm, log0, call.done_ns().unwrap_or(net.sim.now_ns()));
+            let sv: Vec<std::net::SocketAddrV4> = net.servers.iter().filter(|&&x| net.sim.nodes[x].alive).map(|&x| net.sim.nodes[x].addr).collect();
+            lks.push(json!({"n":n,"done":call.done(),"queried":tr.queried.iter().map(|a| a.to_string()).collect::<Vec<_>>(),"swarm":true,"items":call.items.len(),
+                "missed_ids_listed": shadowed(&tr, &sv, net.sim.nodes[n].addr)}));
+        }
     }
     // the tables again once every node has used the network (its lookup collected address votes: on public plans this is
     // where a node confirms its address and re-keys) - the network must STAY connected
